@@ -185,7 +185,105 @@ def _discr_local(m, b):
     return None
 
 
+CMP = ("Eq", "Ne", "Lt", "Le", "Gt", "Ge", "Cmp")
+
+
+def _tainted(e, params, upvars):
+    def pred(x):
+        if x[0] == "param" and x[1] in params:
+            return True
+        if x[0] == "field" and upvars and x[3] in upvars:
+            b = deep_strip(x[1])
+            while b[0] in ("deref", "ref"):
+                b = deep_strip(b[1])
+            return b == ("param", 1)
+        return False
+    return mentions(e, pred)
+
+
+def _range_checked(m, bb, params):
+    lower = upper = False
+    for (ce, inf, sb) in facts_at(m, bb):
+        if ce[0] != "binop":
+            continue
+        a = deep_strip(ce[2])
+        while a[0] == "cast":
+            a = deep_strip(a[1])
+        if not (a[0] == "param" and a[1] in params):
+            continue
+        tv = truth(inf); bv = fold(ce[3])
+        if ce[1] == "Ge" and bv == 0 and tv: lower = True
+        if ce[1] == "Lt" and bv == 0 and tv is False: lower = True
+        if ce[1] in ("Lt", "Le") and bv is not None and tv: upper = True
+    return lower and upper
+
+
+def signal_transformations(F, m, params, upvars=(), seen=None, depth=0):
+    """places where the signal number is transformed arithmetically / used as an index without a dominating range check:
+    [(description, span)] — walks workspace callees and closures that receive the value"""
+    seen = seen if seen is not None else set()
+    key = (m.id, tuple(sorted(params)), tuple(sorted(upvars)))
+    if key in seen or depth > 6:
+        return []
+    seen.add(key)
+    out = []
+    fl = flow(m)
+    for bb, bl in enumerate(m.blocks):
+        if bl["cleanup"]:
+            continue
+        for si, st in enumerate(bl["s"]):
+            if st["k"] != "assign":
+                continue
+            r = st["r"]
+            if r["k"] == "binop" and r["op"] not in CMP:
+                ex = fl.rvalue(r, (bb, si))
+                if any(_tainted(e, params, upvars) for e in ex) and not _range_checked(m, bb, params):
+                    out.append(("%s on the signal number in %s" % (r["op"], m.name.split("::")[-1]), st["sp"]))
+            for pl in [st["l"]] + ([r["p"]] if r["k"] in ("ref", "rawptr") else []) + ([r["o"]["p"]] if r["k"] == "use" and r["o"].get("p") else []):
+                for p in pl["p"]:
+                    if p["k"] == "index":
+                        ie = fl.local(p["l"], (bb, si))
+                        if any(_tainted(e, params, upvars) for e in ie) and not _range_checked(m, bb, params):
+                            out.append(("signal number used as an index in %s" % m.name.split("::")[-1], st["sp"]))
+        t = bl["t"]
+        if t["k"] != "call":
+            continue
+        for ai, a in enumerate(t["args"]):
+            ex = [deep_strip(e) for e in fl.term_arg(bb, ai)]
+            if not any(_tainted(e, params, upvars) for e in ex):
+                continue
+            callee = F.inst[t["f"]] if t.get("f") is not None else None
+            d = t.get("def") or ""
+            # a closure capturing the value, handed to an adapter: analyse the closure
+            for e in ex:
+                if e[0] == "agg" and e[1][0] == "closure":
+                    cl = [c for c in F.inst if c.kind == "closure" and c.defp == e[1][1] and c.body is not None and c.name.startswith(m.name.split("::{closure")[0])]
+                    ups = {k for k, u in enumerate(e[2]) if _tainted(u, params, upvars)}
+                    for c in cl[:1]:
+                        out += signal_transformations(F, c, set(), ups, seen, depth + 1)
+            if callee is not None and callee.local and callee.body is not None and callee.kind != "closure":
+                out += signal_transformations(F, callee, {ai + 1}, (), seen, depth + 1)
+            elif d.startswith("core::num::") and not _range_checked(m, bb, params):
+                out.append(("%s applied to the signal number in %s" % (d.split("::")[-1], m.name.split("::")[-1]), t["sp"]))
+    return out
+
+
+def rule_c(ctx):
+    F = ctx.F
+    rid = "C16.c"
+    ctx.rule(rid, "the signal number reaches the default-kind decision only through comparisons (or unchanged into system calls): no shift / mask / "
+                  "modulo / index on it without a dominating range check — otherwise numbers outside the table alias known signals", floor=1)
+    m = F.one("signal_hook::low_level::signal_details::emulate_default_handler")
+    tr = signal_transformations(F, m, {1})
+    ctx.check(not tr, rid, "signal-only-compared", "emulate_default_handler (and the helpers/closures it hands the number to) only compares the signal number", m.span,
+              {"transformations": tr[:6], "why": "e.g. 1 << (n mod 64): 143 = 128+SIGTERM would be treated as SIGTERM instead of returning EINVAL"})
+    n = F.one("signal_hook::low_level::signal_details::signal_name")
+    tr2 = signal_transformations(F, n, {1})
+    ctx.check(not tr2, rid, "signal_name-only-compared", "signal_name only compares the signal number", n.span, tr2[:6])
+
+
 def run(ctx):
+    ctx.guarded("C16.c", rule_c)
     ctx.guarded("C16.a", rule_a)
     ctx.guarded("C16.b", rule_b)
     ctx.note("not decided: what the kernel actually does with the re-raised signal; orphaned process groups; real-time signals (not in the table)")
